@@ -20,3 +20,7 @@ Q("exc-try-without-user-call", "main.py",
   "    n = x0.size\n",
   "    try:\n        n = x0.size\n    except AttributeError:\n        n = len(x0)\n",
   ["EXC"])
+
+# ---- EXC (round 4): work done in a handler before re-raising; user callables inside a generator expression
+M("exc-handler-works-before-reraise", "scalar_function.py", "            fx = fun(np.copy(x), *args)\n",
+  "            try:\n                fx = fun(np.copy(x), *args)\n            except Exception as e:\n                e.add_note(f'evaluation {self.nfev} at {self.x}')\n                raise\n", ["EXC"])
